@@ -419,25 +419,36 @@ Print Assumptions C02_bit_flip_is_a_mutation.
    If Encrypt(p, ad) = c (under any IV) and Decrypt accepts (c', ad') <> (c, ad) (AD below
    2^61 bytes, where the 64-bit bit-length cannot wrap), then the tag of c' is a valid
    truncated HMAC of a MAC input x' DIFFERENT from the only input x that Encrypt
-   authenticated: an existential forgery (with x' and the tag equation explicit).  *)
+   authenticated: an existential forgery (with x' and the tag equation explicit).
+   The tag size is at least 10 bytes, as every constructor enforces (internal/mac/hmac.New and
+   aead/subtle.NewEncryptThenAuthenticate: minTagSizeInBytes = 10; aesctrhmac key_parameters.go:
+   minTagSize = 10; model: EtM.etm_valid; the constant is regenerated from the source as
+   gen_etm_min_tag, ConstsTieC14) — at tag size 0 the "forgery" would be the free [] = [];
+   with the premise the forged tag has at least 80 bits.  *)
 Theorem C02_aesctrhmac_accepted_mutant_is_hmac_forgery :
   forall (aes hmac : bytes -> bytes -> bytes) (hlen : nat),
     (forall k b, length (aes k b) = 16%nat) -> (forall k m, length (hmac k m) = hlen) ->
     forall prefix k iv p ad c c' ad' p',
-      (ek_tag k <= hlen)%nat -> lenN ad < 2 ^ 61 -> lenN ad' < 2 ^ 61 ->
+      (10 <= ek_tag k <= hlen)%nat -> lenN ad < 2 ^ 61 -> lenN ad' < 2 ^ 61 ->
       etm_enc aes hmac prefix k iv p ad = Ok c -> (c', ad') <> (c, ad) ->
       let x := mac_input ad (iv ++ aes_ctr (aes (ek_aes k)) iv p) in
       (etm_dec aes hmac prefix k c' ad' = Ok p' ->
          hmac_forgery hmac k x (mac_input ad' (payload_of (length prefix) k c')) (tag_of k c') /\
-         tmac hmac k x = tag_of k c) /\
+         tmac hmac k x = tag_of k c /\ (10 <= length (tag_of k c'))%nat) /\
       (prefix = [] -> etm_subtle_dec aes hmac k c' ad' = Ok p' ->
          hmac_forgery hmac k x (mac_input ad' (payload_of 0 k c')) (tag_of k c') /\
-         tmac hmac k x = tag_of k c).
+         tmac hmac k x = tag_of k c /\ (10 <= length (tag_of k c'))%nat).
 Proof.
-  intros aes hmac hlen HA HH prefix k iv p ad c c' ad' p' Ht Ha Ha' He Hne x. split.
-  - intros Hd. exact (etm_dec_accepted_mutant_is_forgery aes hmac hlen HA HH prefix k iv p ad c c' ad' p' Ht Ha Ha' He Hd Hne).
+  intros aes hmac hlen HA HH prefix k iv p ad c c' ad' p' [Ht10 Ht] Ha Ha' He Hne x.
+  assert (Hlen : forall pre, etm_dec aes hmac pre k c' ad' = Ok p' -> (10 <= length (tag_of k c'))%nat).
+  { intros pre Hd. rewrite (etm_dec_is_canon aes hmac hlen HA HH) in Hd by exact Ht.
+    rewrite (etm_accepted_tag_length aes hmac hlen HA HH pre k c' ad' p' Hd). exact Ht10. }
+  split.
+  - intros Hd. destruct (etm_dec_accepted_mutant_is_forgery aes hmac hlen HA HH prefix k iv p ad c c' ad' p' Ht Ha Ha' He Hd Hne) as [F T].
+    split; [exact F|]. split; [exact T|exact (Hlen _ Hd)].
   - intros -> Hd. rewrite (etm_subtle_dec_eq aes hmac hlen HA HH) in Hd by exact Ht.
-    exact (etm_dec_accepted_mutant_is_forgery aes hmac hlen HA HH [] k iv p ad c c' ad' p' Ht Ha Ha' He Hd Hne).
+    destruct (etm_dec_accepted_mutant_is_forgery aes hmac hlen HA HH [] k iv p ad c c' ad' p' Ht Ha Ha' He Hd Hne) as [F T].
+    split; [exact F|]. split; [exact T|exact (Hlen _ Hd)].
 Qed.
 Print Assumptions C02_aesctrhmac_accepted_mutant_is_hmac_forgery.
 
@@ -451,16 +462,21 @@ Theorem C02_aesctrhmac_mutant_rejected_unless_forged :
   forall (aes hmac : bytes -> bytes -> bytes) (hlen : nat),
     (forall k b, length (aes k b) = 16%nat) -> (forall k m, length (hmac k m) = hlen) ->
     forall prefix k iv p ad c c' ad',
-      (ek_tag k <= hlen)%nat -> lenN ad < 2 ^ 61 -> lenN ad' < 2 ^ 61 ->
+      (10 <= ek_tag k <= hlen)%nat -> lenN ad < 2 ^ 61 -> lenN ad' < 2 ^ 61 ->
       etm_enc aes hmac prefix k iv p ad = Ok c -> (c', ad') <> (c, ad) ->
       let x := mac_input ad (iv ++ aes_ctr (aes (ek_aes k)) iv p) in
       let x' := mac_input ad' (payload_of (length prefix) k c') in
       (x' = x -> etm_dec aes hmac prefix k c' ad' = Err) /\
       (tag_of k c' <> tmac hmac k x' -> etm_dec aes hmac prefix k c' ad' = Err) /\
-      (forall p', etm_dec aes hmac prefix k c' ad' = Ok p' -> x' <> x /\ tag_of k c' = tmac hmac k x').
+      (forall p', etm_dec aes hmac prefix k c' ad' = Ok p' ->
+         x' <> x /\ tag_of k c' = tmac hmac k x' /\ (10 <= length (tag_of k c'))%nat).
 Proof.
-  intros aes hmac hlen HA HH prefix k iv p ad c c' ad' Ht Ha Ha' He Hne.
-  exact (etm_mutant_rejected_unless_forged aes hmac hlen HA HH prefix k iv p ad c c' ad' Ht Ha Ha' He Hne).
+  intros aes hmac hlen HA HH prefix k iv p ad c c' ad' [Ht10 Ht] Ha Ha' He Hne x x'.
+  destruct (etm_mutant_rejected_unless_forged aes hmac hlen HA HH prefix k iv p ad c c' ad' Ht Ha Ha' He Hne) as [H1 [H2 H3]].
+  split; [exact H1|]. split; [exact H2|]. intros p' Hd. destruct (H3 p' Hd) as [Hx Hv].
+  split; [exact Hx|]. split; [exact Hv|].
+  rewrite (etm_dec_is_canon aes hmac hlen HA HH) in Hd by exact Ht.
+  rewrite (etm_accepted_tag_length aes hmac hlen HA HH prefix k c' ad' p' Hd). exact Ht10.
 Qed.
 Print Assumptions C02_aesctrhmac_mutant_rejected_unless_forged.
 
@@ -472,7 +488,7 @@ Print Assumptions C02_aesctrhmac_mutant_rejected_unless_forged.
 Theorem C02_aesctrhmac_tag_mutations_rejected :
   forall (aes hmac : bytes -> bytes -> bytes) (hlen : nat),
     (forall k b, length (aes k b) = 16%nat) -> (forall k m, length (hmac k m) = hlen) ->
-    forall prefix k iv p ad c, (ek_tag k <= hlen)%nat ->
+    forall prefix k iv p ad c, (10 <= ek_tag k <= hlen)%nat ->
       etm_enc aes hmac prefix k iv p ad = Ok c ->
       (forall c', length c' = length c ->
          firstn (length c - ek_tag k) c' = firstn (length c - ek_tag k) c -> c' <> c ->
@@ -484,7 +500,7 @@ Theorem C02_aesctrhmac_tag_mutations_rejected :
          (x' <> x -> tmac hmac k x' <> tmac hmac k x) ->
          etm_dec aes hmac prefix k c' ad' = Err).
 Proof.
-  intros aes hmac hlen HA HH prefix k iv p ad c Ht He. split.
+  intros aes hmac hlen HA HH prefix k iv p ad c [_ Ht] He. split.
   - intros c' H1 H2 H3. exact (etm_tag_only_mutation_rejected aes hmac hlen HA HH prefix k iv p ad c c' Ht He H1 H2 H3).
   - intros c' ad' Ha Ha' Hne Htag x x' Hinst.
     exact (etm_tag_kept_mutation_rejected aes hmac hlen HA HH prefix k iv p ad c c' ad' Ht Ha Ha' He Hne Htag Hinst).
